@@ -662,6 +662,38 @@ int main(int argc, char** argv) {
         }
         fprintf(g_out, "{\"e\":\"SHammer\",\"threads\":%d,\"ops\":%ld,\"bad\":%ld,\"libc\":1}\n", nth, lops, lbad);
       }
+      // two threads ask for the same never-seen name, the second one a swept fraction of a load later (so that over the rounds it
+      // arrives at every point of the first one's load - also the points between its critical sections, where no yield hook is),
+      // while others keep loading cached names: whoever wins, the factory is asked once per name
+      {
+        const int rounds = std::max(400, iters / 8);
+        std::atomic<bool> stop(false);
+        std::vector<std::thread> bg;
+        for (int i = 0; i < 3; ++i)
+          bg.emplace_back([&]() { time_zone z; while (!stop.load()) { load_time_zone("REF/a", &z); load_time_zone("UTC", &z); } });
+        long dup = 0, unequal = 0;
+        for (int r = 0; r < rounds; ++r) {
+          const std::string name = "RC" + std::to_string(r) + "/a";
+          std::atomic<int> go4(0);
+          time_zone za, zb;
+          bool oka = false, okb = false;
+          const int delay_us = (r * 37) % 3000;
+          std::thread ta([&]() { while (!go4.load()) {} oka = load_time_zone(name, &za); });
+          std::thread tb([&]() {
+            while (!go4.load()) {}
+            auto until = std::chrono::steady_clock::now() + std::chrono::microseconds(delay_us);
+            while (std::chrono::steady_clock::now() < until) {}
+            okb = load_time_zone(name, &zb);
+          });
+          go4.store(1);
+          ta.join(); tb.join();
+          { std::unique_lock<std::mutex> lk(G); if (g_calls[name] != 1) ++dup; }
+          if (!oka || !okb || !(za == zb)) ++unequal;
+        }
+        stop.store(true);
+        for (auto& th : bg) th.join();
+        fprintf(g_out, "{\"e\":\"SHammer\",\"threads\":5,\"ops\":%d,\"bad\":%ld,\"race\":1,\"unequal\":%ld}\n", rounds, dup + unequal, unequal);
+      }
     } else if (tag == "TW") {
       int nth; is >> nth;
       std::unique_lock<std::mutex> lk(G);
